@@ -13,6 +13,7 @@ import (
 	"fmt"
 	"go/token"
 	"go/types"
+	"os"
 	"sort"
 	"strings"
 
@@ -141,6 +142,7 @@ func equal(a, b State) bool {
 // PathOf resolves v to the field path it addresses (FieldAddr) or loads
 // (*FieldAddr).
 func PathOf(v ssa.Value) (Path, bool) {
+	v = ir.GetterLoad(v)
 	if u, ok := v.(*ssa.UnOp); ok && u.Op == token.MUL {
 		v = u.X
 	}
@@ -162,6 +164,7 @@ func LockPath(recv ssa.Value) (Path, bool) { return PathOf(recv) }
 
 // LoadPath reports the path loaded by v when v is exactly `*(&x.f)`.
 func LoadPath(v ssa.Value) (Path, bool) {
+	v = ir.GetterLoad(v)
 	u, ok := v.(*ssa.UnOp)
 	if !ok || u.Op != token.MUL {
 		return Path{}, false
@@ -298,24 +301,107 @@ func Analyze(p *ir.Prog) *Analysis {
 		})
 	}
 	sort.Slice(a.Locks, func(i, j int) bool { return a.Locks[i].String() < a.Locks[j].String() })
-	for round := 0; round < 30; round++ {
+	// The equations are iterated as they stand first. Summaries and entry states feed each other
+	// with a round's delay, so two consistent solutions can alternate for ever (a lock taken
+	// through a one-line wrapper is enough); when that happens the iteration is continued
+	// upwards (facts of either iterate are kept) and the result is accepted only if a plain
+	// round then changes nothing, i.e. it is a fixpoint of the undamped equations; failing
+	// that it is continued downwards (only facts confirmed again are kept), which ends in a
+	// state every fact of which is re-derived from the state itself (a post-fixpoint, hence
+	// below the greatest fixpoint and sound for must-facts).
+	mode := "plain"
+	step := func(round int) bool {
 		changed := false
 		a.Sites = map[*ssa.Function][]CallSite{}
 		for _, f := range a.order {
+			old := a.Funcs[f].Sum
 			if a.run(f) {
 				changed = true
+				if round > 25 && os.Getenv("JRPCVET_DEBUG") != "" {
+					fmt.Fprintf(os.Stderr, "facts round %d: summary of %s changed: %v\n", round, f, a.Funcs[f].Sum)
+				}
+			}
+			if mode != "plain" {
+				cur := a.Funcs[f].Sum
+				for _, pair := range [][2]map[Path]bool{{old.ExitHeld, cur.ExitHeld}, {old.ExitNotHeld, cur.ExitNotHeld}} {
+					o, n := pair[0], pair[1]
+					if mode == "up" {
+						for k := range o {
+							n[k] = true
+						}
+					} else {
+						for k := range n {
+							if !o[k] {
+								delete(n, k)
+							}
+						}
+					}
+				}
+				// a lock cannot be both
+				for k := range cur.ExitHeld {
+					if cur.ExitNotHeld[k] {
+						delete(cur.ExitHeld, k)
+						delete(cur.ExitNotHeld, k)
+					}
+				}
+				changed = changed && (!sameSet(old.ExitHeld, cur.ExitHeld) || !sameSet(old.ExitNotHeld, cur.ExitNotHeld) || !sameSet(old.Touches, cur.Touches) || !sameSet(old.Writes, cur.Writes))
 			}
 		}
 		for _, f := range a.order {
 			fi := a.Funcs[f]
 			e := a.entryFor(f)
+			switch mode {
+			case "up":
+				if fi.Entry != nil {
+					for k := range fi.Entry {
+						e[k] = struct{}{}
+					}
+				}
+			case "down":
+				if fi.Entry != nil {
+					e = meet(e, fi.Entry)
+				}
+			}
 			if !equal(e, fi.Entry) {
+				if round > 25 && os.Getenv("JRPCVET_DEBUG") != "" {
+					fmt.Fprintf(os.Stderr, "facts round %d: entry of %s changed: %v -> %v\n", round, f, fi.Entry, e)
+				}
 				fi.Entry = e
 				changed = true
 			}
 		}
-		if !changed {
+		return changed
+	}
+	round := 0
+	for ; round < 30; round++ {
+		if !step(round) {
 			a.Notes = append(a.Notes, fmt.Sprintf("fixpoint after %d rounds over %d functions", round+1, len(a.order)))
+			a.Fixed = true
+			return a
+		}
+	}
+	for _, m := range []string{"up", "down"} {
+		mode = m
+		stable := false
+		for i := 0; i < 40; i++ {
+			round++
+			if !step(round) {
+				stable = true
+				break
+			}
+		}
+		if !stable {
+			continue
+		}
+		if m == "down" {
+			a.Notes = append(a.Notes, fmt.Sprintf("alternating solutions; settled downwards after %d rounds (every fact re-derived from the final state)", round+1))
+			a.Fixed = true
+			return a
+		}
+		mode = "plain"
+		round++
+		if !step(round) {
+			a.Notes = append(a.Notes, fmt.Sprintf("alternating solutions; fixpoint of the plain equations reached upwards after %d rounds", round+1))
 			a.Fixed = true
 			return a
 		}
